@@ -595,9 +595,104 @@ def run(ctx):
     nm = meta_string_layer(ctx)
     ctx.layer("string-contents", strings=len(META_STRINGS), positions=9, translations=nm, exhaustive=True,
               note="quotes, LIKE wildcards and backslashes inside literals: output tokenises, parses and (SQLite dialect) prepares")
+    nd = duration_layer(ctx)
+    ctx.layer("duration-components", literals=len(__import__("vt.durref", fromlist=["x"]).DURATION_LITERALS), templates=len(DUR_TEMPLATES), translations=nd, exhaustive=True,
+              note="the interval expression denotes exactly the literal's signed components (independent reading of both sides)")
+    nk = keyword_case_layer(ctx)
+    ctx.layer("keyword-literal-case", keywords=len(KW_LITERALS), templates=len(KW_TEMPLATES), translations=nk, exhaustive=True,
+              note="every upper/lower-case spelling of true, false, null translates like the lower-case spelling")
     no = odd_digit_layer(ctx)
     ctx.layer("non-ascii-digits", spellings=len(ODD_DIGITS), templates=len(ODD_TEMPLATES), translations=no, exhaustive=True,
               note="number / date / time / duration / GUID spellings with Unicode decimal digits: rejected by the parser, or translated to ASCII-only SQL tokens")
+
+
+# ---------------------------------------------------------------- duration literals, component by component
+DUR_TEMPLATES = [("x eq {L}", 2, 0), ("{L} eq x", 0, 2), ("t add {L} gt t", 2, 2), ("t sub {L} gt t", 2, 2),
+                 ("x in ({L}, duration'PT9S')", 3, 5), ("not (x ne {L})", 3, 0)]
+
+
+def duration_unit(lit, tpl, pre, suf, dname):
+    """-> None or (class, details): the interval expression in the SQL must denote exactly the literal's signed components"""
+    from vt import durref
+    text = tpl.replace("{L}", "duration'%s'" % lit)
+    try:
+        sql = DIALECTS[dname]().visit(_ps.parse(_lx.tokenize(text)))
+    except exceptions.ODataException:
+        return None
+    except Exception as e:  # noqa
+        return ("%s:duration:foreign:%s" % (dname, type(e).__name__), {"filter": text})
+    toks = sqllex.lex(sql)
+    span = toks[pre:len(toks) - suf]
+    want = durref.duration_components(lit)
+    try:
+        got = durref.sql_interval_components(span)
+    except durref.IntervalSyntax as e:
+        return ("%s:duration:interval-syntax" % dname, {"filter": text, "sql": sql, "problem": str(e)})
+    if got != want:
+        return ("%s:duration:components" % dname, {"filter": text, "sql": sql, "got": {k: str(v) for k, v in got.items()}, "want": {k: str(v) for k, v in want.items()}})
+    return None
+
+
+def duration_layer(ctx):
+    from vt import durref
+    n = 0
+    for lit in durref.DURATION_LITERALS:
+        ctx.count("states")
+        for tpl, pre, suf in DUR_TEMPLATES:
+            for dname in DIALECTS:
+                n += 1
+                ctx.count("executions")
+                ctx.count("transitions")
+                r = duration_unit(lit, tpl, pre, suf, dname)
+                if r:
+                    ctx.violation(r[0], dict(r[1], layer="durations", literal=lit, template=tpl, dialect=dname))
+                else:
+                    ctx.outcome(("duration", "ok"))
+    return n
+
+
+# ---------------------------------------------------------------- keyword literals in every letter case
+KW_LITERALS = ["true", "false", "null"]
+KW_TEMPLATES = ["b eq {L}", "{L} eq b", "b in ({L}, {L})", "not (b ne {L})", "b eq {L} or n eq 1", "contains(s, 'k') eq {L}"]
+
+
+def keyword_case_layer(ctx):
+    """the parser accepts true / false / null in any letter case: the SQL must be the SQL of the lower-case spelling"""
+    n = 0
+    for kw in KW_LITERALS:
+        spellings = sorted({"".join(c.upper() if (m >> i) & 1 else c for i, c in enumerate(kw)) for m in range(1 << len(kw))})
+        for tpl in KW_TEMPLATES:
+            base = tpl.replace("{L}", kw)
+            try:
+                tree0 = _ps.parse(_lx.tokenize(base))
+            except exceptions.ODataException:
+                continue
+            for sp in spellings:
+                text = tpl.replace("{L}", sp)
+                ctx.count("states")
+                try:
+                    tree = _ps.parse(_lx.tokenize(text))
+                except exceptions.ODataException:
+                    ctx.outcome(("kw-case", "rejected"))
+                    continue
+                for dname, cls in DIALECTS.items():
+                    n += 1
+                    ctx.count("executions")
+                    ctx.count("transitions")
+                    outs = []
+                    for tr in (tree0, tree):
+                        try:
+                            outs.append(("sql", cls().visit(tr)))
+                        except exceptions.ODataException as e:
+                            outs.append(("lib", type(e).__name__))
+                        except Exception as e:  # noqa
+                            outs.append(("foreign", type(e).__name__))
+                    if outs[0] != outs[1]:
+                        ctx.violation("%s:keyword-case" % dname, {"filter": text, "lower_case_filter": base, "dialect": dname, "layer": "keyword-case",
+                                                                 "observed": outs[1], "expected": outs[0]})
+                    else:
+                        ctx.outcome(("kw-case", "same"))
+    return n
 
 
 # ---------------------------------------------------------------- digits that are not ASCII digits
@@ -693,6 +788,18 @@ def _untuple(x):
 
 def replay(ctx, case):
     text = case["filter"]
+    if case.get("layer") == "durations":
+        pre, suf = {t: (a, b) for t, a, b in DUR_TEMPLATES}[case["template"]]
+        r = duration_unit(case["literal"], case["template"], pre, suf, case["dialect"])
+        return {"filter": text, "violation": r, "ok": r is None}
+    if case.get("layer") == "keyword-case":
+        outs = []
+        for tx in (case["lower_case_filter"], text):
+            try:
+                outs.append(DIALECTS[case["dialect"]]().visit(_ps.parse(_lx.tokenize(tx))))
+            except Exception as e:  # noqa
+                outs.append(type(e).__name__)
+        return {"filter": text, "observed": outs[1], "expected": outs[0], "ok": outs[0] == outs[1]}
     if case.get("layer") == "meta-strings":
         sql = DIALECTS[case["dialect"]](case.get("alias")).visit(_ps.parse(_lx.tokenize(text)))
         bad = [t.text[:40] for t in sqllex.bad_tokens(sqllex.lex(sql))]
